@@ -206,6 +206,13 @@ def run(rep):
         ]
         for inst, ok, msg in checks:
             rep.check(ok, "C10-R3", eb.def_, inst, msg, line=s.line, detail={"guards": g})
+        # every matching listener's connection is served once: from the edge "matches and not yet served" the next
+        # listener is unreachable without the send, except when that connection is gone
+        te = eb.edges_matching([r"^False=HashSet::contains\(HashSet::new\(\), BusListener::conn_id\("])
+        gone = eb.edges_matching([r"^None=discr\(self\.conns\[BusListener::conn_id\("])
+        nx = [c.bb for c in eb.calls if c.name == "next" and any("self.bus_listeners" in x for x in eb.describe(c.args[0]))]
+        ok = len(te) >= 1 and len(nx) == 1 and not any(({nx[0]} | set(eb.exits())) & eb.reachable(v, without_nodes={s.bb}, without_edges=gone) for (_u, v) in te)
+        rep.check(ok, "C10-R3", eb.def_, "every-matching-listener-served", "a listener that matches a new event and whose connection was not served yet must get the event before the next listener is visited", line=s.line, detail={"edges": len(te)})
     mn = B("matches_new_event")
     ok = any(c.name == "map" and any_match(mn.describe(c.args[0]), r"^self\.scope$") and any_match(mn.describe(c.args[1]), r"BusListenerScope::includes_new$") for c in mn.calls)
     anyc = [c for c in mn.calls if c.name == "any"]
